@@ -103,11 +103,11 @@ def ops : List (String × Op) := [
   ("gbw", do
       let fl ← pFlavor; let _force ← pBool; let trans ← pBool; let c ← pColl; pArrow
       let a ← pAns (pList pRec)
-      -- a translation cannot be requested from a collection without sequence (documented refusal)
       -- a CDS with a programmed frameshift can make the requested translation itself fail (C05's finding F-C05b:
       -- InvalidPositionException from the re-synchronising walk); that refusal is C05's, not the writer's
       let shifted := (genesOf c).any fun g => g.txs.any fun t => t.coding && !t.oneFrame
-      if !writeDomain c || (trans && c.seq.isNone) || (a.isNone && trans && shifted) then pure "n/a"
+      -- a collection without sequence is refused as documented (GenBankExportError)
+      if !writeDomain c || c.seq.isNone || (a.isNone && trans && shifted) then pure "n/a"
       else pure (report (writeViolations fl trans c a))),
   -- (b): real text -> real parse_genbank in one mode
   ("gbrt", do
